@@ -52,7 +52,7 @@ def EntryMatches (e : Entry) (r : Req) : Prop :=
 
 /-- The documented "no proxy" condition. -/
 def Bypass (O : Oracles) (noProxy : List Nat) (r : Req) : Prop :=
-  r.host = localhost ∨ (∃ ip, r.ip = some ip ∧ isLoopback ip = true) ∨
+  canonHost r = localhost ∨ (∃ ip, r.ip = some ip ∧ isLoopback ip = true) ∨
   ∃ e ∈ entries O noProxy, EntryMatches e r
 
 /-! ### the matcher lists `init` builds -/
@@ -188,11 +188,11 @@ theorem useProxy_false_iff_bypass (O : Oracles) (cgi : Bool) (hp sp : Option (Li
   have hw := walk_init O cgi hp sp np r
   unfold useProxy
   unfold Bypass
-  by_cases hl : r.host = localhost
+  unfold canonHost at hw ⊢
+  by_cases hl : toLower (trimSpace r.host) = localhost
   · simp [hl]
   · simp only [hl, if_false, false_or]
     rw [← hw]
-    unfold canonHost
     generalize (init O cgi hp sp np).ipMatchers.any _ = A
     generalize (init O cgi hp sp np).domainMatchers.any _ = D
     cases hip : r.ip with
@@ -431,8 +431,12 @@ example : proxyForURL (init noOracles false (some proxyURL) none (46 :: fooCom))
 proxied (before the repair: silently not), and it still honours `*`. -/
 example : proxyForURL (init noOracles false (some proxyURL) none []) (mkReq [97, 93, 98]) = .proxy proxyURL := by decide
 example : ¬ Bypass noOracles [] (mkReq [97, 93, 98]) := by
-  simp [Bypass, entries, splitComma, pieceStep, trimSpace, trimLeft, trimRight, toLower, stepEntry, localhost, mkReq]
+  have hc : canonHost (mkReq [97, 93, 98]) ≠ localhost := by decide
+  simp [Bypass, entries, splitComma, pieceStep, trimSpace, trimLeft, trimRight, toLower, stepEntry, mkReq]
+  exact hc
 example : proxyForURL (init noOracles false (some proxyURL) none [42]) (mkReq [97, 93, 98]) = .noProxy := by decide
+/-- Regression for the repaired defect `localhost-case-sensitive`: " LocalHost" is localhost. -/
+example : proxyForURL (init noOracles false (some proxyURL) none []) (mkReq [76, 111, 99, 97, 108, 72, 111, 115, 116]) = .noProxy := by decide
 /-- "x,*,y": everything bypasses; CGI refuses http. -/
 example : proxyForURL (init noOracles false (some proxyURL) none [120, 44, 42, 44, 121]) (mkReq fooCom) = .noProxy := by decide
 example : proxyForURL (init noOracles true (some proxyURL) none []) (mkReq fooCom) = .errCGI := by decide
